@@ -411,7 +411,7 @@ class Sim:
                 if before[k] != after[k]:
                     self.violate("params_changed", c, "set_params", i_step, None, {"changed": [c.name], "before": before[k], "after": after[k]})
                 continue
-            if ev["res"] != "ok":
+            if ev["res"] != "ok" or before[k].startswith("ERR:") or after[k].startswith("ERR:"):
                 continue
             exp = self.expected_after(c.obj, target_id, leaf, ev["value_spec"], json.loads(before[k]))
             if exp is not None and json.dumps(exp, sort_keys=True) != after[k]:
